@@ -61,6 +61,18 @@ def ref_logpdf(fam, x, p):
     raise ValueError(fam)
 
 
+def ref_rounding_floor(fam, x, p):
+    """Elementwise absolute rounding floor of the TEXTBOOK formula itself in working precision: the Student-t
+    normaliser is a difference of two log-gamma values of magnitude ~ (df/2) log(df/2), so any implementation that
+    evaluates the textbook expression loses eps * that magnitude (float32, df = 2e4: ~5e-3 per element - seen as a
+    false alarm at VERIF_SEED=2).  Zero for the other families (their terms are O(|log-density|))."""
+    if fam != "StudentT":
+        return 0.0 * np.asarray(x, np.float64)
+    v = np.asarray(p["df"], np.float64)
+    eps = 6e-8 if F32 else 1.2e-16
+    return 16 * eps * (np.abs(sp.gammaln((v + 1) / 2)) + np.abs(sp.gammaln(v / 2))) + 0.0 * np.asarray(x, np.float64)
+
+
 def ref_cdf(fam, x, p):
     x = np.asarray(x, np.float64)
     with np.errstate(all="ignore"):
@@ -212,6 +224,8 @@ def oracle_family(c, ctx):
         x = x.astype(np.float32).astype(np.float64)  # the reference sees exactly the float32 input the library sees
     lp = np.asarray(lib_call(f"C05|{fam}|log_prob", dist.log_prob, jnp.asarray(x)), np.float64)
     el = ref_logpdf(fam, x, pb)
+    floor_el = np.broadcast_to(ref_rounding_floor(fam, x, pb), full)
+    floor = floor_el.sum(axis=tuple(range(len(batch), len(full)))) if len(full) > len(batch) else floor_el
     edge_amb = np.zeros(full, bool)
     if fam in ("Uniform", "Exponential", "LogNormal"):
         edge_amb = kinds == "edge"  # either convention (closed/open) is accepted exactly on the edge
@@ -236,8 +250,8 @@ def oracle_family(c, ctx):
         elif not np.isfinite(w):
             ok = True  # reference itself overflowed (e.g. Gumbel far left tail)
         else:
-            ok = np.isfinite(g) and abs(g - w) <= LT * (1 + abs(w)) + LT * np.sum(np.abs(el[idx])) if axes else \
-                np.isfinite(g) and abs(g - w) <= LT * (1 + abs(w))
+            ok = np.isfinite(g) and abs(g - w) <= LT * (1 + abs(w)) + LT * np.sum(np.abs(el[idx])) + floor[idx] if axes else \
+                np.isfinite(g) and abs(g - w) <= LT * (1 + abs(w)) + floor[idx]
             if ok:
                 ctx.ratio(fam, abs(g - w) / (LT * (1 + abs(w))))
         if not ok:
